@@ -48,9 +48,9 @@ func Soup(validUTF8 bool) *rapid.Generator[string] {
 				pool = punctuators
 			case 3, 4:
 				pool = names
-			case 5, 6:
+			case 6:
 				pool = numbers
-			case 7, 8:
+			case 8:
 				pool = stringsPool
 			case 9, 10:
 				pool = blockPool
@@ -60,6 +60,12 @@ func Soup(validUTF8 bool) *rapid.Generator[string] {
 				pool = ignored
 			case 14:
 				pool = hostile
+			case 7:
+				sb.WriteString(GenStringLiteral(t))
+				continue
+			case 5:
+				sb.WriteString(GenNumberLiteral(t))
+				continue
 			default:
 				// a short random string over a small alphabet
 				s := rapid.StringOfN(rapid.RuneFrom([]rune("\"\\un01.-e+a_é#\n\r ,{\uFEFF")), 0, 6, -1).Draw(t, "rnd")
@@ -87,4 +93,57 @@ func Soup(validUTF8 bool) *rapid.Generator[string] {
 		}
 		return s
 	})
+}
+
+// GenStringLiteral builds a quoted string piece by piece; escapes are mostly well formed, with
+// each position of a \u escape occasionally replaced by a character that only a careless
+// decoder accepts (sign, underscore, space, 'x', non-hex letter, quote).
+func GenStringLiteral(t *rapid.T) string {
+	var sb strings.Builder
+	sb.WriteByte('"')
+	n := rapid.IntRange(0, 5).Draw(t, "npieces")
+	for i := 0; i < n; i++ {
+		switch rapid.IntRange(0, 5).Draw(t, "piece") {
+		case 0:
+			sb.WriteString(rapid.SampledFrom([]string{"a", "b c", "é", "😀", "#", ",", "'", "{", "\t", " ", "\u00a0", "\u2028", "\uFEFF", "\uFFFE", "\uE000"}).Draw(t, "plain"))
+		case 1:
+			sb.WriteString("\\" + rapid.SampledFrom([]string{"\"", "\\", "/", "b", "f", "n", "r", "t"}).Draw(t, "esc"))
+		case 2:
+			sb.WriteString("\\" + rapid.SampledFrom([]string{"a", "v", "x", "0", "U", " ", "'", "e"}).Draw(t, "badesc"))
+		default:
+			sb.WriteString("\\u")
+			k := 4
+			if rapid.IntRange(0, 7).Draw(t, "short") == 0 {
+				k = rapid.IntRange(0, 5).Draw(t, "ndigits")
+			}
+			for j := 0; j < k; j++ {
+				if rapid.IntRange(0, 11).Draw(t, "odd") == 0 {
+					sb.WriteString(rapid.SampledFrom([]string{"+", "-", "_", " ", "x", "X", "g", "G", ".", "\"", "é", "\\", "{", "}"}).Draw(t, "oddc"))
+				} else {
+					sb.WriteString(rapid.SampledFrom([]string{"0", "0", "0", "1", "4", "9", "a", "A", "d", "D", "f", "F", "8", "c", "e", "E"}).Draw(t, "hex"))
+				}
+			}
+		}
+	}
+	if rapid.IntRange(0, 15).Draw(t, "open") != 0 {
+		sb.WriteByte('"')
+	}
+	return sb.String()
+}
+
+// GenNumberLiteral builds a number from its grammar parts, each part occasionally malformed.
+func GenNumberLiteral(t *rapid.T) string {
+	var sb strings.Builder
+	sb.WriteString(rapid.SampledFrom([]string{"", "", "-", "+", "--"}).Draw(t, "sign"))
+	sb.WriteString(rapid.SampledFrom([]string{"0", "0", "1", "7", "10", "123", "00", "01", "", "9223372036854775807", "9223372036854775808"}).Draw(t, "int"))
+	if rapid.IntRange(0, 2).Draw(t, "hasFrac") == 0 {
+		sb.WriteString("." + rapid.SampledFrom([]string{"0", "5", "25", "000", "", "5.", "a"}).Draw(t, "frac"))
+	}
+	if rapid.IntRange(0, 1).Draw(t, "hasExp") == 0 {
+		sb.WriteString(rapid.SampledFrom([]string{"e", "E"}).Draw(t, "e"))
+		sb.WriteString(rapid.SampledFrom([]string{"", "", "+", "-", "+-"}).Draw(t, "esign"))
+		sb.WriteString(rapid.SampledFrom([]string{"0", "3", "10", "05", "", "999", "e"}).Draw(t, "exp"))
+	}
+	sb.WriteString(rapid.SampledFrom([]string{"", "", "", "", "a", "_", ".", "e", "x1", "b1", "o7"}).Draw(t, "tail"))
+	return sb.String()
 }
